@@ -249,6 +249,21 @@ add("d_nonbuggy", Decl("NonBuggy", [("i", Seq(Ref(ListOfInts), count=2))]), 5, 6
 add("d_frame_control", Decl("FrameControl", [("version", Bits(2)), ("type", Bits(2)), ("subtype", Bits(4)),
                                              ("flags", Bits(8)), ("dur", Int(2, endian="little"))]), 4, 5, "D", "bits", "flat")
 
+# README packets
+add("d_tlv16", Decl("TypeLengthValue", [("type", Int(1)), ("length", Int(2)), ("value", Data(Fld("length")))]), 6, 8,
+    "D", "data", "size", "ctl16")
+add("d_frame_control_readme", Decl("FrameControlR", [("length", Bits(6)), ("more_fragments", Bits(1)), ("fragment_offset", Bits(9)),
+                                                      ("data", Data(Fld("length")))]), 5, 7, "D", "data", "size", "bits")
+add("d_image1d", Decl("Image1D", [("has_name", Bits(1)), ("count_numbers", Bits(7)), ("numbers", Seq(Int(1), count=Fld("count_numbers"))),
+                                  ("optional_name", Opt(Data(until=b"\x00"), Fld("has_name")))]), 5, 6, "D", "seq", "opt", "data", "delim")
+add("d_matrix", Decl("Matrix", [("rows", Bits(2)), ("pad", Bits(2)), ("columns", Bits(2)), ("pad2", Bits(2)),
+                                ("values", Seq(Int(1), count=Ex("rows * columns")))]), 5, 7, "D", "seq", "count", "expr")
+add("d_address", Decl("Address", [("ip_address", Seq(Int(1), count=4)),
+                                  ("domain_name", Opt(Data(until=b"\x00"), Ex("(ip_address[:3] == [0, 0, 0]) & (ip_address[3] != 0)")))]),
+    6, 7, "D", "seq", "opt", "data", "delim", "expr")
+add("d_token", Decl("Token", [("size", Int(1)), ("data", Data(Fn("lambda pkt, raw, offset, **k: pkt.size if pkt.size < 8 else 8")))]),
+    5, 10, "D", "data", "size", "callable")
+
 # ----------------------------------------------------------------------------- N: nesting
 InnerAt = Decl("InnerAt", [("h", Int(1)), ("v", Int(1).at(2))])
 MidAt = Decl("MidAt", [("m", Int(1)), ("inner", Ref(InnerAt)), ("w", Int(1).at(5))])
